@@ -1072,7 +1072,7 @@ func dirtyXRHeaders(r *Rng, p rtcp.Packet) rtcp.Packet {
 }
 
 // genCcfbShort: a CCFB frame whose last report block announces one or two metric blocks more than the frame holds,
-// followed by another frame: the decoder must reject it, not read the next frame's octets
+// (to be followed by another frame: the decoder must reject it, not read the next frame's octets)
 func genCcfbShort(r *Rng) []byte {
 	b := []byte{0x8b, 205, 0, 0}
 	b = binary.BigEndian.AppendUint32(b, uint32(r.U64()))
@@ -1094,5 +1094,5 @@ func genCcfbShort(r *Rng) []byte {
 		b = append(b, 0)
 	}
 	binary.BigEndian.PutUint16(b[2:], uint16(len(b)/4-1))
-	return append(b, validFrame(r, []string{"BYE", "PLI", "RR", "RAW"}[r.Intn(4)])...)
+	return b
 }
